@@ -385,6 +385,13 @@ func specGfpow(t T, p int) T {
 //@   requires 0 <= a && a < b && c >= 1
 //@   ensures mathint(a)*mathint(c) + mathint(c) <= mathint(b)*mathint(c)
 
+//@ lemma mulNonneg
+//@   props C11 C07 C12
+//@   mode int
+//@   forall a int, c int
+//@   requires a >= 0 && c >= 0
+//@   ensures mathint(a)*mathint(c) >= 0
+
 //@ func (Matrix).checkRowIndex
 //@   props C11 C07 C12
 //@   pure
@@ -507,10 +514,33 @@ func specGfpow(t T, p int) T {
 //@   assert-call addScaledRow #3 : sameSlice(arg0.elements, n.elements) && arg0.rows == n.rows && arg0.columns == n.columns && arg1 == j && arg2 == i && arg3 == t
 //@   requires matOK(m) && matOK(n) && m.rows == m.columns && n.rows == m.rows && disjoint(m.elements, n.elements)
 //@   modifies m.elements[:] ; n.elements[:]
+//@   loop 0
+//@     use mulMono(i, m.rows, m.columns)
+//@     use mulNonneg(i, m.columns)
+//@     use mulMono(i, n.rows, n.columns)
+//@     use mulNonneg(i, n.columns)
 //@   loop 1
 //@     invariant j >= i
+//@     use mulMono(j, m.rows, m.columns)
+//@     use mulNonneg(j, m.columns)
+//@     use mulMono(j, n.rows, n.columns)
+//@     use mulNonneg(j, n.columns)
 //@   loop 2
 //@     invariant j >= i + 1
+//@     use mulMono(j, m.rows, m.columns)
+//@     use mulNonneg(j, m.columns)
+//@     use mulMono(j, n.rows, n.columns)
+//@     use mulNonneg(j, n.columns)
+//@   loop 3
+//@     use mulMono(i, m.rows, m.columns)
+//@     use mulNonneg(i, m.columns)
+//@     use mulMono(i, n.rows, n.columns)
+//@     use mulNonneg(i, n.columns)
+//@   loop 4
+//@     use mulMono(j, m.rows, m.columns)
+//@     use mulNonneg(j, m.columns)
+//@     use mulMono(j, n.rows, n.columns)
+//@     use mulNonneg(j, n.columns)
 
 //@ func NewMatrixFromFunction
 //@   props C11 C07
